@@ -208,12 +208,12 @@ impl<'a> G<'a> {
                     match self.u.below(4) { 0 => self.mark(",", MK::Masked), 1 => self.mark("=", MK::Masked), 2 => self.mark(";", MK::Masked), _ => {} } }
                     self.gclose(); }
                 5 if self.u.coin(1, 8) => { self.str_with_stat(); self.p(" "); }
-                5 => { self.feat("quoted-in-arg"); let q = self.u.coin(1, 2); self.p(if q { "'" } else { "\"" }); self.p("s"); self.tp(); if !q && self.u.coin(1, 3) { self.mvar(true); self.tp(); } self.mark(",", MK::Masked); self.mark(")", MK::Masked); self.mark("=", MK::Masked); self.p(if q { "' " } else { "\" " }); }
+                5 => { self.feat("quoted-in-arg"); let q = self.u.coin(1, 2); self.p(if q { "'" } else { "\"" }); self.p("s"); self.tp(); if !q && self.u.coin(1, 3) { self.mvar(true); self.tp(); } self.mark(",", MK::Masked); if self.u.coin(1, 2) { self.p("("); } self.mark(")", MK::Masked); self.mark("=", MK::Masked); if self.u.coin(1, 4) { self.p("(("); } self.p(if q { "' " } else { "\" " }); }
                 6 => { self.d_inc(); self.user_call(2); self.depth -= 1; self.p(" "); let w = self.pick(WORDS); self.p(w); }
                 7 => { self.d_inc(); self.builtin_call(2); self.depth -= 1; }
                 8 => { self.p("="); let w = self.pick(WORDS); self.p(w); } // '=' inside value text is just text (after first token / when not a name)
                 9 => { let s = self.pick(&["1", "42", "3.5"]); self.p(s); }
-                10 => { self.p("/"); let w = self.pick(WORDS); self.p(w); }
+                10 => { if self.u.coin(1, 2) { self.p("/"); let w = self.pick(WORDS); self.p(w); } else { self.feat("comment-in-value"); let w = self.pick(WORDS); self.p(w); self.mark("/*c,=;)(*/", MK::HiddenWs); let w = self.pick(WORDS); self.p(w); self.tp(); } }
                 _ => { self.d_inc(); self.stat_in_value(); self.depth -= 1; }
             }
         }
